@@ -69,8 +69,8 @@ class CirclePixelRegion(PixelRegion):
     def __init__(self, center, radius, meta=None, visual=None):
         self.center = center
         self.radius = radius
-        self.meta = meta or RegionMeta()
-        self.visual = visual or RegionVisual()
+        self.meta = RegionMeta() if meta is None else meta
+        self.visual = RegionVisual() if visual is None else visual
 
     @property
     def area(self):
@@ -207,8 +207,8 @@ class CircleSkyRegion(SkyRegion):
     def __init__(self, center, radius, meta=None, visual=None):
         self.center = center
         self.radius = radius
-        self.meta = meta or RegionMeta()
-        self.visual = visual or RegionVisual()
+        self.meta = RegionMeta() if meta is None else meta
+        self.visual = RegionVisual() if visual is None else visual
 
     def to_pixel(self, wcs):
         center, pixscale, _ = pixel_scale_angle_at_skycoord(self.center, wcs)
